@@ -631,8 +631,9 @@ def snapshot_of(ob):
 
 def predicate_caches(case, out, stats=None):
     """The property's second sentence evaluated on every snapshot of the IMPLEMENTATION: the
-    caches are bounded by the committee size alone."""
-    bad = []
+    caches are bounded by the committee size alone.  At most 3 failures of each sort are
+    reported per scenario, size bounds first."""
+    found = {}
     members = {int(k) for k, _ in case["committee"]}
     n = len(members)
     for i, ob in enumerate(out["obs"]):
@@ -641,32 +642,34 @@ def predicate_caches(case, out, stats=None):
             continue
         cv, cq, tv, tq = (snap[SNAP_COMMIT_VIEWS], snap[SNAP_COMMIT_QCS], snap[SNAP_TIMEOUT_VIEWS], snap[SNAP_TIMEOUT_QCS])
 
-        def fail(text):
-            bad.append({"step": i, "failed": f"step {i}, committee of {n}: {text}", "snapshot_caches": [cv, cq, tv, tq]})
+        def fail(sort, text):
+            l = found.setdefault(sort, [])
+            if len(l) < 3:
+                l.append({"step": i, "failed": f"step {i}, committee of {n}: {text}", "snapshot_caches": [cv, cq, tv, tq]})
 
         for name, views in (("commit_views_cache", cv), ("timeout_views_cache", tv)):
             keys = [int(e[0]) for e in views]
             if len(views) > n:
-                fail(f"{name} has {len(views)} entries")
+                fail(0, f"{name} has {len(views)} entries")
             if len(set(keys)) != len(keys) or not set(keys) <= members:
-                fail(f"{name} keys {keys} are not distinct committee members")
+                fail(1, f"{name} keys {keys} are not distinct committee members")
         if len(cq) > n:
-            fail(f"commit_qcs_cache holds certificates for {len(cq)} views")
+            fail(2, f"commit_qcs_cache holds certificates under construction for {len(cq)} views")
         for e in cq:
             if int(e[1]) > n:
-                fail(f"commit_qcs_cache holds {e[1]} certificates under construction for view {e[0]}")
+                fail(3, f"commit_qcs_cache holds {e[1]} certificates under construction for view {e[0]}")
         if sum(int(e[1]) for e in cq) > n * n:
-            fail(f"commit_qcs_cache holds {sum(int(e[1]) for e in cq)} certificates under construction")
+            fail(4, f"commit_qcs_cache holds {sum(int(e[1]) for e in cq)} certificates under construction")
         if len(tq) > n:
-            fail(f"timeout_qcs_cache holds certificates for {len(tq)} views")
+            fail(5, f"timeout_qcs_cache holds certificates under construction for {len(tq)} views")
         active_c = {int(e[1]) for e in cv}
         active_t = {int(e[1]) for e in tv}
         stray = [int(e[0]) for e in cq if int(e[0]) not in active_c]
         if stray:
-            fail(f"commit_qcs_cache keeps views {stray[:5]} that are nobody's latest commit view")
+            fail(6, f"commit_qcs_cache keeps views {stray[:5]} that are nobody's latest commit view")
         stray = [int(v) for v in tq if int(v) not in active_t]
         if stray:
-            fail(f"timeout_qcs_cache keeps views {stray[:5]} that are nobody's latest timeout view")
+            fail(7, f"timeout_qcs_cache keeps views {stray[:5]} that are nobody's latest timeout view")
         if stats is not None:
             stats["snapshots"] += 1
             stats["max_commit_views"] = max(stats["max_commit_views"], len(cv))
@@ -677,9 +680,7 @@ def predicate_caches(case, out, stats=None):
             if len(cq) >= 2 or len(tq) >= 2:
                 stats["snapshots_with_several_views_cached"] += 1
             stats["distinct_views_seen"].update(active_c | active_t)
-        if len(bad) > 20:
-            break
-    return bad
+    return [b for sort in sorted(found) for b in found[sort]]
 
 
 def run_cache_half(rep, rng, cov, broken):
@@ -723,7 +724,7 @@ def run_cache_half(rep, rng, cov, broken):
          "results": {}, "sample_ids": [0, 1]}
     for r, st, mine in results:
         base = len(R["cases"])
-        broken += [m.replace("C16R", "C16 cache half, batch ") for m in mine]
+        broken += ["cache half, batch %d: %s" % (len(R["cases"]) // per_batch, m) for m in mine]
         R["cases"] += r["cases"]
         R["outs"] += r["outs"]
         R["mm"].update({base + i: v for i, v in r["mm"].items()})
